@@ -35,25 +35,37 @@ def decode(pk, wire, schema):
     f2a = kit.field_to_abstract
     try:
         if pk == 'interest':
-            name, par, app, sig = enc.parse_interest(wire)
+            res = enc.parse_interest(wire)
+        elif pk == 'data':
+            res = enc.parse_data(wire)
+        elif pk == 'cert':
+            res = parse_certificate(wire)
+        elif pk == 'lp':
+            res = enc.parse_lp_packet_v2(wire)
+        else:
+            res = enc.Name.from_bytes(wire)
+    except Exception as ex:  # noqa
+        return ('reject' if kit.exc_class(ex) == 'documented' else 'error:' + type(ex).__name__), []
+    # projection of what was returned; a result of an unexpected shape is reported as such, not as a driver error
+    try:
+        if pk == 'interest':
+            name, par, app, sig = res
             fh = par.forwarding_hint
             out = [f2a(schema[0], name, None), f2a(schema[1], par.can_be_prefix, None), f2a(schema[2], par.must_be_fresh, None),
                    ({'k': 'model', 'v': [{'k': 'list', 'items': [f2a(schema[0], n, None) for n in fh]}]} if fh else kit.NONE),
                    f2a(schema[4], par.nonce, None), f2a(schema[5], par.lifetime, None), f2a(schema[6], par.hop_limit, None),
                    f2a(schema[7], app, None), f2a(schema[8], sig.signature_info, None), f2a(schema[9], sig.signature_value_buf, None)]
         elif pk == 'data':
-            name, meta, content, sig = enc.parse_data(wire)
+            name, meta, content, sig = res
             out = [f2a(schema[0], name, None), f2a(schema[1], meta, None), f2a(schema[2], content, None),
                    f2a(schema[3], sig.signature_info, None), f2a(schema[4], sig.signature_value_buf, None)]
-        elif pk == 'cert':
-            out = kit.to_abstract(schema, parse_certificate(wire))
-        elif pk == 'lp':
-            out = kit.to_abstract(schema, enc.parse_lp_packet_v2(wire))
+        elif pk in ('cert', 'lp'):
+            out = kit.to_abstract(schema, res)
         else:
-            out = [kit.comp_abstract(c) for c in enc.Name.from_bytes(wire)]
-        return 'accept', out
+            out = [kit.comp_abstract(c) for c in res]
     except Exception as ex:  # noqa
-        return ('reject' if kit.exc_class(ex) == 'documented' else 'error:' + type(ex).__name__), []
+        out = [{'k': 'unprojectable-result', 'exc': type(ex).__name__}]
+    return 'accept', out
 
 
 def norm_expected(pk, out):
@@ -130,13 +142,20 @@ def replay_sequences(ctx, table, seqs, seen):
         T = table[pk]
         schema, letters = T['schema'], T['letters']
         elems = [letters[i - 1] for i in w]
-        value = kit.wire_of(elems)
-        wire = packet_wire(kit.unlimbs(T['outer']), value)
+        fr = T['frame']
+        seq_pk = pk
+        if fr['parent']:
+            # nested level: the sequence is the content of a container inside a fixed frame of the parent packet
+            full = fr['pre'] + [kit.node(kit.unlimbs(fr['t']), elems)] + fr['post']
+            pk, dschema = fr['parent'], fr['pschema']
+        else:
+            full, dschema = elems, schema
+        wire = packet_wire(kit.unlimbs(T['outer']), kit.wire_of(full))
         # trusted-base cross-check: the strict reader projects the strict writer's output onto the same elements
-        oc, tree = classify(pk, wire, schema, kit.unlimbs(T['outer']))
-        if oc != 'ok' or tree != elems:
-            raise tlc.MachineryError('strict reader/writer disagree on %s %s: %s' % (pk, w, oc))
-        got, out = decode(pk, wire, schema)
+        oc, tree = classify(pk, wire, dschema, kit.unlimbs(T['outer']))
+        if oc != 'ok' or tree != full:
+            raise tlc.MachineryError('strict reader/writer disagree on %s %s: %s' % (seq_pk, w, oc))
+        got, out = decode(pk, wire, dschema)
         n += 1
         if verdict == 'accept':
             if pk == 'name':
@@ -150,49 +169,87 @@ def replay_sequences(ctx, table, seqs, seen):
                         exp[i - 1]['items'].append(fv)
                     else:
                         exp[i - 1] = fv
+                if fr['parent']:
+                    pexp = json.loads(json.dumps(fr['pout']))
+                    pexp[fr['field'] - 1] = {'k': 'model', 'v': exp}
+                    exp = pexp
                 exp = norm_expected(pk, exp)
-        rep = {'kind': 'wire', 'pk': pk, 'wire': wire.hex(), 'letters': w}
+        rep = {'kind': 'wire', 'pk': pk, 'wire': wire.hex(), 'letters': w, 'level': seq_pk}
         if got != verdict:
             ctx.violation('C07/%s/%s%s/%s' % (FN[pk], verdict, ':' + why if why else '', got),
                           '%s(%s): reference %s%s, implementation %s' % (FN[pk], wire.hex(), verdict, ' (%s)' % why if why else '', got), rep)
         elif verdict == 'accept' and out != exp:
             ctx.violation('C07/%s/accept/fields-differ' % FN[pk], '%s(%s): extracted fields differ from the strict reading' % (FN[pk], wire.hex()), rep)
         if len(w) >= 3 or why:
-            ctx.nt(['B', pk, w])
+            ctx.nt(['B', seq_pk, w])
     return n
 
 
 # ------------------------------------------------------------------ stage C corpus
 
-def corpus():
-    """valid packets (pk, wire) built with the library's own encoders"""
+def hand_corpus():
+    """well-formed packets written with the strict writer only (independent of the library's encoders), among them
+    certificates whose SignatureInfo carries every optional field: KeyLocator, ValidityPeriod, AdditionalDescription"""
+    name = (7, [(8, b'id'), (8, b'KEY'), (8, b'\x01'), (8, b'self'), (54, b'\x01\x02')])
+    validity = (253, [(254, b'20200102T030405'), (255, b'20300102T030405')])
+    desc = (258, [(512, [(513, b'k1'), (514, b'v1')]), (512, [(513, b'k2'), (514, b'')])])
+    meta = (20, [(24, b'\x02'), (25, b'\x36\xee\x80')])
+    kl = (28, [(7, [(8, b'K')])])
+    out = []
+    for si in ([(27, b'\x03'), kl, validity, desc], [(27, b'\x03'), validity, desc], [(27, b'\x03'), kl, desc],
+               [(27, b'\x00'), validity], [(27, b'\x03'), kl, (38, b'\x01\x02\x03\x04'), (40, b'\x01'), (42, b'\x07'), validity, desc]):
+        out.append(('cert', stl.write_tlv([(6, [name, meta, (21, b'\x30\x59' + b'\x11' * 20), (22, si), (23, b'\x05' * 8)])])))
+    out.append(('data', stl.write_tlv([(6, [(7, [(8, b'a')]), (20, [(24, b'\x00'), (25, b'\x0a'), (26, b'\x32\x01\x09')]), (21, b'xyz'),
+                                           (22, [(27, b'\x01'), kl]), (23, b'\x00' * 4)])])))
+    out.append(('interest', stl.write_tlv([(5, [(7, [(8, b'a'), (2, b'\xdd' * 32)]), (33, b''), (18, b''), (30, [(7, [(8, b'h')])]),
+                                               (10, b'\x00\x00\x00\x09'), (12, b'\x0f\xa0'), (34, b'\x20'), (36, b'pp'),
+                                               (44, [(27, b'\x03'), kl, (38, b'\x00\x00\x00\x01'), (40, b'\x02'), (42, b'\x03')]),
+                                               (46, b'\x07' * 8)])])))
+    out.append(('lp', stl.write_tlv([(100, [(98, b'\x01\x02'), (800, [(801, b'\x96')]), (812, b'\x01\x00'), (832, b'\x01'),
+                                            (80, b'\x05\x03\x07\x01\x00')])])))
+    return out
+
+
+def corpus(ctx):
+    """valid packets (pk, wire): hand-written ones plus packets built with the library's own encoders. A builder
+    that fails on the tree under test is a finding about that tree, not a harness failure."""
     from ndn import encoding as enc
     from ndn.security import DigestSha256Signer
     from ndn.app_support import security_v2 as sv2
     from datetime import datetime
     sgn = DigestSha256Signer()
-    out = []
-    out.append(('interest', bytes(enc.make_interest('/a/b', enc.InterestParam()))))
-    out.append(('interest', bytes(enc.make_interest('/local/ndn/prefix', enc.InterestParam(can_be_prefix=True, must_be_fresh=True, nonce=0x01020304,
-                                                                                lifetime=6000, hop_limit=9, forwarding_hint=['/r1', '/r2/x'])))))
-    out.append(('interest', bytes(enc.make_interest('/cmd/x', enc.InterestParam(nonce=7), b'\x01\x02\x03', signer=sgn))))
-    out.append(('data', bytes(enc.make_data('/a/b/c', enc.MetaInfo(freshness_period=1000), b'hello', signer=sgn))))
-    out.append(('data', bytes(enc.make_data('/x', enc.MetaInfo(content_type=2, final_block_id=enc.Component.from_segment(3)), b'', signer=None))))
-    out.append(('data', bytes(enc.make_data('/big/32=k/%00', enc.MetaInfo(), b'\xab' * 300, signer=sgn))))
-    i0 = enc.make_interest('/n/1', enc.InterestParam(nonce=1, lifetime=10))
-    out.append(('lp', bytes(enc.make_network_nack(i0, 150))))
-    lp = enc.ndnlp_v2.LpPacket()
-    lp.lp_packet = enc.ndnlp_v2.LpPacketValue()
-    lp.lp_packet.pit_token = b'\x01\x02\x03\x04'
-    lp.lp_packet.congestion_mark = 1
-    lp.lp_packet.fragment = bytes(i0)
-    out.append(('lp', bytes(lp.encode())))
-    _, cert = sv2.new_cert('/id/KEY/%01', enc.Component.from_str('self'), b'\x30\x59\x30\x13' + b'\x11' * 20, sgn,
-                           datetime(2020, 1, 2, 3, 4, 5), datetime(2030, 1, 2, 3, 4, 5))
-    out.append(('cert', bytes(cert)))
-    out.append(('cert', out[3][1]))                 # an ordinary Data through the certificate decoder
-    out.append(('name', enc.Name.to_bytes('/a/b/32=kw/seg=5')))
-    out.append(('name', enc.Name.to_bytes('/')))
+
+    def lp_tok():
+        i0 = enc.make_interest('/n/1', enc.InterestParam(nonce=1, lifetime=10))
+        lp = enc.ndnlp_v2.LpPacket()
+        lp.lp_packet = enc.ndnlp_v2.LpPacketValue()
+        lp.lp_packet.pit_token = b'\x01\x02\x03\x04'
+        lp.lp_packet.congestion_mark = 1
+        lp.lp_packet.fragment = bytes(i0)
+        return lp.encode()
+    builders = [
+        ('interest', 'plain', lambda: enc.make_interest('/a/b', enc.InterestParam())),
+        ('interest', 'all-fields', lambda: enc.make_interest('/local/ndn/prefix', enc.InterestParam(
+            can_be_prefix=True, must_be_fresh=True, nonce=0x01020304, lifetime=6000, hop_limit=9, forwarding_hint=['/r1', '/r2/x']))),
+        ('interest', 'signed', lambda: enc.make_interest('/cmd/x', enc.InterestParam(nonce=7), b'\x01\x02\x03', signer=sgn)),
+        ('data', 'signed', lambda: enc.make_data('/a/b/c', enc.MetaInfo(freshness_period=1000), b'hello', signer=sgn)),
+        ('data', 'unsigned', lambda: enc.make_data('/x', enc.MetaInfo(content_type=2, final_block_id=enc.Component.from_segment(3)), b'', signer=None)),
+        ('data', 'big', lambda: enc.make_data('/big/32=k/%00', enc.MetaInfo(), b'\xab' * 300, signer=sgn)),
+        ('lp', 'nack', lambda: enc.make_network_nack(enc.make_interest('/n/1', enc.InterestParam(nonce=1, lifetime=10)), 150)),
+        ('lp', 'token', lp_tok),
+        ('cert', 'new_cert', lambda: sv2.new_cert('/id/KEY/%01', enc.Component.from_str('self'), b'\x30\x59\x30\x13' + b'\x11' * 20, sgn,
+                                                  datetime(2020, 1, 2, 3, 4, 5), datetime(2030, 1, 2, 3, 4, 5))[1]),
+        ('cert', 'data-as-cert', lambda: enc.make_data('/a/b/c', enc.MetaInfo(freshness_period=1000), b'hello', signer=sgn)),
+        ('name', 'uri', lambda: enc.Name.to_bytes('/a/b/32=kw/seg=5')),
+        ('name', 'root', lambda: enc.Name.to_bytes('/')),
+    ]
+    out = hand_corpus()
+    for pk, what, fn in builders:
+        try:
+            out.append((pk, bytes(fn())))
+        except Exception as ex:  # noqa
+            ctx.violation('C07/corpus/%s-%s/encoder-raises:%s' % (pk, what, type(ex).__name__),
+                          'building the valid %s packet "%s" with the library raised %r' % (pk, what, ex), {'kind': 'corpus', 'pk': pk, 'what': what})
     return out
 
 
@@ -288,14 +345,14 @@ def mutations(ctx, pk, wire, schema, outer_t):
                 out.append(wire[:i] + bytes([b]) + wire[i + 1:])
     out += [wire[:i] for i in range(len(wire))]                       # every truncation
     out += [wire + b'\x00', wire + wire[:3]]                          # trailing bytes
-    out += structural_edits(rng, pk, wire, schema, outer_t, ctx.pick(60, 600))
+    out += structural_edits(rng, pk, wire, schema, outer_t, ctx.pick(30, 600))
     return out
 
 
 def random_strings(ctx, pk, outer_t):
     rng = ctx.rng
     out = []
-    for _ in range(ctx.pick(40, 400)):
+    for _ in range(ctx.pick(25, 400)):
         n = rng.choice([0, 1, 2, 5, 17, 60, 300, 1500, 4096])
         body = bytes(rng.randrange(256) for _ in range(n))
         out.append(body)                                              # uniformly random
@@ -414,7 +471,7 @@ def _run(ctx):
                        'projection of decoder results in harness/tlvkit.py and c07.decode', 'TLC and the CommunityModules Json module',
                        'sys.settrace line events as the step measure for the linear-time clause']
     table = None
-    allpk = ['interest', 'data', 'cert', 'lp', 'name']
+    allpk = ['interest', 'data', 'cert', 'lp', 'name', 'interest.si', 'data.si', 'cert.si', 'data.meta']
     if 'A' in ctx.stages or 'B' in ctx.stages:
         # (MaxLen, alphabet level): quick = length 4 over the mini alphabet + length 2 over the full one;
         # thorough = length 5 mini + length 4 reduced + length 3 full
@@ -444,12 +501,11 @@ def _run(ctx):
             table, _ = run_machine(ctx, 'tab', 1, 0, allpk, 2)
         recs, seen = [], set()
         stats = {}
-        for pk, wire in corpus():
+        for pk, wire in corpus(ctx):
             T = table[pk]
             outer_t = kit.unlimbs(T['outer'])
-            got, _ = decode(pk, wire, T['schema'])
-            if got != 'accept':
-                raise tlc.MachineryError('corpus packet %s %s is not accepted (%s)' % (pk, wire.hex(), got))
+            # (an unmutated packet that the decoder does not accept, or reads differently, is judged by TLC like
+            # any other input: it is the first element of mutations())
             inputs = mutations(ctx, pk, wire, T['schema'], outer_t) + random_strings(ctx, pk, outer_t)
             for w in inputs:
                 if (pk, w) in seen:
